@@ -133,6 +133,47 @@ def all_message_types():
     return names
 
 
+def message_instances():
+    """[(module.Class, instance)] for every message class of the package that can be built from synthetic field values"""
+    import pydcop
+    out, seen_cls = [], set()
+    for m in sorted(pkgutil.walk_packages(pydcop.__path__, "pydcop."), key=lambda m: m.name):
+        if any(s in m.name for s in (".commands", ".tests", "ui", "version")):
+            continue
+        try:
+            mod = importlib.import_module(m.name)
+        except Exception:
+            continue
+        for n, o in sorted(vars(mod).items()):
+            if not (inspect.isclass(o) and issubclass(o, Message) and o is not Message) or id(o) in seen_cls:
+                continue
+            key = "%s.%s" % (mod.__name__.replace("pydcop.", ""), n)
+            fields = None
+            for cell in (getattr(o.__init__, "__closure__", None) or ()):
+                try:
+                    c = cell.cell_contents
+                except ValueError:
+                    continue
+                if isinstance(c, list) and all(isinstance(x, str) for x in c):
+                    fields = c
+            if fields is None and o.__module__ != mod.__name__:
+                continue                            # an ordinary class imported from elsewhere
+            seen_cls.add(id(o))
+            try:
+                if fields is not None:              # a message_type() class
+                    inst = o(**{f: "val_%s_%d" % (f, i) if i % 2 == 0 else i + 1 for i, f in enumerate(fields)})
+                else:
+                    params = [p for p in inspect.signature(o.__init__).parameters.values() if p.name != "self"]
+                    if any(p.kind in (p.VAR_POSITIONAL, p.VAR_KEYWORD) for p in params):
+                        continue
+                    inst = o(*[(i + 1) if p.default is inspect.Parameter.empty else p.default for i, p in enumerate(params)])
+                simple_repr(inst)
+            except Exception:
+                continue                            # needs structured arguments: covered by the messages of real runs
+            out.append((key, inst))
+    return out
+
+
 def run(tier):
     quick = tier == "quick"
     v = Verdict("C15", tier, "exploration")
@@ -221,6 +262,41 @@ def run(tier):
                             dict(capacity=5, foo="bar", default_route=2, routes={"a1": 4, "a3": 1}, default_hosting_cost=1, hosting_costs={"v1": 0, "c0": 3})]):
         a = AgentDef("a%d" % (i % 3 + 1), **kw)
         add("agentdef:pickle", a, how=lambda x: pickle.loads(pickle.dumps(x)), kw=repr(kw))
+    # (e) computation definitions over LARGE domains (more than 10 values, not in sorted order): positional encodings of
+    # tuples with two-digit positions are only reached there
+    for nvals, graph in ((11, "constraints_hypergraph"), (12, "factor_graph"), (13, "pseudotree")):
+        vals = [(7 * i + 3) % nvals for i in range(nvals)]
+        tab = [((3 * a + 5 * b) % 17) - 4 for a in range(nvals) for b in range(3)]
+        big = {"vars": ["v0", "v1"], "dsize": {"v0": nvals, "v1": 3}, "mode": "min", "shape": "bigdomain%d" % nvals,
+               "doms": {"v0": vals, "v1": ["R", "G", "B"]},
+               "cons": [{"name": "c0", "scope": ["v0", "v1"], "tab": tab}], "varcost": {"v0": [i % 4 for i in range(nvals)], "v1": [0, 0, 0]},
+               "init": {"v0": 2, "v1": 0}}
+        dcop, _ = build_dcop(big)
+        gm = importlib.import_module("pydcop.computations_graph." + graph)
+        cg = gm.build_computation_graph(dcop)
+        algo = {"constraints_hypergraph": "dsa", "factor_graph": "maxsum", "pseudotree": "dpop"}[graph]
+        algo_def = AlgorithmDef.build_with_default_param(algo, {}, mode="min")
+        for node in cg.nodes:
+            add("computation_def:" + graph, ComputationDef(node, algo_def), shape=big["shape"], graph=graph, node=node.name, inst=None)
+    # (f) inventory pass: one instance of EVERY message class of the package (message_type() classes and Message subclasses whose
+    # constructor arguments are plain), decoded one after the other in a FRESH process per order (declaration order, reverse,
+    # seeded shuffles): two classes may declare the same message type name with different fields (e.g. 'stop'), and decoding is
+    # stateful if anything is memoised
+    import subprocess, sys, os
+    from ..common import scratch, VERIF
+    procs = []
+    for order in ["forward", "reverse"] + ["shuffle%d" % (seed() * 10 + i) for i in range(2 if quick else 8)]:
+        of = scratch() / ("c15_inv_%s.json" % order)
+        procs.append((order, of, subprocess.Popen([sys.executable, "-m", "vlib.props.C15_worker", order, str(of)], cwd=str(VERIF),
+                                                  env=dict(os.environ), stdout=subprocess.DEVNULL, stderr=subprocess.PIPE)))
+    for order, of, p in procs:
+        _, err = p.communicate(timeout=900)
+        if p.returncode != 0 or not of.exists():
+            raise MachineryError("C15 inventory worker failed (%s): %s" % (order, err.decode()[-800:]))
+        for rec in json.load(open(of)):
+            rec["id"] = len(recs)
+            meta[rec["id"]] = {"kind": rec["kind"], "shape": "-", "algo": "inventory", "order": rec.pop("order")}
+            recs.append(rec)
     verdicts, jres = judge("Judge_C15", recs, chunk=1500, heap="6g")
     v.add_tlc(jres, "%d objects judged before / after the wire (Judge_C15 / Wire.tla)" % len(recs))
     kinds = collections.Counter()
@@ -251,7 +327,8 @@ def run(tier):
     v.cov["exhaustive"] = False
     v.cov["rule"] = ("computation definitions of every node of the four graph models for TLC-drawn DCOPs (8 shapes, own-value costs, initial values); a sample of the "
                      "messages of each type sent in real executions of 11 algorithms and in whole resilient orchestrated runs (deploy, replication, removal, repair); "
-                     "agent definitions through pickle and the wire; non-trivial = more than 3 observed facts")
+                     "agent definitions through pickle and the wire; computation definitions over domains of 11-13 values; one synthetic instance of "
+                     "every message class of the package decoded in sequence in both orders; non-trivial = more than 3 observed facts")
     v.cov["trusted_base"] = ["TLC (set equality of the observed facts)", "the observation function facts() of vlib/props/C15.py"]
     v.assumptions = ["the HTTP transport is exercised through its encode / decode functions, not through sockets"]
     return v.finish()
